@@ -30,7 +30,7 @@ PROP = dict(
          "known class remains. States with a buffered syllable WITHOUT A WORD (the former class of F02 / F03, repaired) are "
          "exercised on purpose and counted: editor harness c01_steps_from_noword_state (+ .engine0/1/2, .choice_forward / "
          ".choice_rearward, .list_open, .op_*), c01_sessions_reaching_noword_state, c01_sessions_with_noword_scenarios, "
-         "c01_noword_state_entered_by.*; C-API campaign: a directed corpus replayed on every run (35 histories; the former F02 / "
+         "c01_noword_state_entered_by.*; C-API campaign: a directed corpus replayed on every run (stat directed_histories; the former F02 / "
          "F03 / simple-engine-hang witnesses as they were and continued with Down / cand_open / cand_list_first/last/next/prev / "
          "choose / Tab / Enter, the list opened under each engine, j / k onto the syllable from a neighbour, auto-commit with "
          "threshold 0..2: former_noword_class_witnesses = former_noword_class_witnesses_clean) and calls_from_noword_state, "
